@@ -128,15 +128,12 @@ thread_local! {
     static PANIC_LOC: std::cell::RefCell<Option<String>> = const { std::cell::RefCell::new(None) };
 }
 
-static PROCESS_START: std::sync::OnceLock<Instant> = std::sync::OnceLock::new();
-
-/// An inner leg stops taking new cases after VERIF_LEG_BUDGET_S seconds of process time, so that it
-/// ends by itself and reports what it covered.
-fn leg_deadline_passed(cfg: &Cfg) -> bool {
+/// An inner leg stops taking new cases VERIF_LEG_BUDGET_S seconds into each `par_run` phase, so that
+/// it ends by itself, covers every phase, and reports what it covered.
+fn leg_deadline_passed(cfg: &Cfg, start: Instant) -> bool {
     if !cfg.leg {
         return false;
     }
-    let start = *PROCESS_START.get_or_init(Instant::now);
     match std::env::var("VERIF_LEG_BUDGET_S").ok().and_then(|s| s.parse::<u64>().ok()) {
         Some(b) => start.elapsed() > Duration::from_secs(b),
         None => false,
@@ -144,7 +141,6 @@ fn leg_deadline_passed(cfg: &Cfg) -> bool {
 }
 
 pub fn install_panic_hook() {
-    let _ = PROCESS_START.get_or_init(Instant::now);
     std::panic::set_hook(Box::new(|info| {
         let loc = info
             .location()
@@ -235,7 +231,7 @@ where
                                 i
                             }
                         };
-                        if leg_deadline_passed(&cfg) {
+                        if leg_deadline_passed(&cfg, start) {
                             stop.store(true, Ordering::Relaxed);
                             break;
                         }
